@@ -110,6 +110,8 @@ trait Mut {
     fn clear(&mut self) -> Option<()>;
     /// internal observables for the model comparison only: iteration in the order yielded, scalars
     fn raw(&mut self) -> Option<(Vec<(u64, u64)>, Vec<u64>)> { None }
+    /// housekeeping that must not change what the map holds (shrink_to_fit / reserve / revoke_deleted); None = the type has none
+    fn maintain(&mut self, _which: u64) -> Option<()> { None }
 }
 
 struct Zip(ZiporaHashMap<u64, u64, ModeBuild>);
@@ -164,6 +166,10 @@ impl<L: zipora::hash_map::LinkType> Mut for Gold<L> {
         Some((self.0.iter_with_strategy(IterationStrategy::Safe).map(|(k, v)| (k.id, *v)).collect(),
               vec![self.0.capacity() as u64, self.0.deleted_count() as u64]))
     }
+    fn maintain(&mut self, w: u64) -> Option<()> {
+        if w % 2 == 0 { let _ = self.0.reserve((w % 40) as usize); } else { let _ = self.0.revoke_deleted(); }
+        Some(())
+    }
 }
 
 struct Idx(GoldHashIdx<CKey, u64>, u64);
@@ -180,6 +186,7 @@ impl Mut for Idx {
     }
     fn iter(&mut self) -> Option<Vec<(u64, u64)>> { None }
     fn clear(&mut self) -> Option<()> { None }
+    fn maintain(&mut self, _w: u64) -> Option<()> { self.0.shrink_to_fit(); Some(()) }
 }
 
 struct Sm(SmallMap<CKey, u64>, u64);
@@ -236,6 +243,7 @@ impl Mut for Easy {
     }
     fn iter(&mut self) -> Option<Vec<(u64, u64)>> { None }
     fn clear(&mut self) -> Option<()> { self.0.clear(); Some(()) }
+    fn maintain(&mut self, w: u64) -> Option<()> { if w % 2 == 0 { self.0.reserve((w % 40) as usize); } else { self.0.shrink_to_fit(); } Some(()) }
 }
 
 struct StrM(HashStrMap<u64>);
@@ -257,6 +265,7 @@ impl Mut for StrM {
         Some(self.0.iter().map(|(k, v)| (k.trim_start_matches("key-").parse::<u64>().unwrap_or(u64::MAX), *v)).collect())
     }
     fn clear(&mut self) -> Option<()> { self.0.clear(); Some(()) }
+    fn maintain(&mut self, _w: u64) -> Option<()> { self.0.shrink_to_fit(); Some(()) }
 }
 
 // ---------------------------------------------------------------------------------------------
@@ -413,6 +422,7 @@ fn history(cx: &mut Ctx, family: &str, variant: u64, aux: u64, ops: &[(u64, u64,
     let mut offered: Vec<bool> = vec![];    // operations the type does not offer are left out of the model comparison
     let mut failure: Option<String> = None;
     let mut stub_like = true;               // every answer so far is what an empty map would say
+    let mut maintained = false;             // a housekeeping operation (shrink_to_fit / reserve / revoke_deleted) was executed
     for (i, &(c, k, v)) in ops.iter().enumerate() {
         let m = &mut cell.map;
         let step: Result<Option<(String, Option<String>)>, String> = guarded(|| {
@@ -445,6 +455,7 @@ fn history(cx: &mut Ctx, family: &str, variant: u64, aux: u64, ops: &[(u64, u64,
                     let want: Vec<(u64, u64)> = shadow.iter().map(|(a, b)| (*a, *b)).collect();
                     let term = format!("OIter [{}]", got.iter().map(|(a, b)| format!("({}, {})", a, b)).collect::<Vec<_>>().join("; "));
                     (term, if got != want { Some(format!("iteration yields {:?}, the live entries are {:?}", &got[..got.len().min(12)], &want[..want.len().min(12)])) } else { None }) }),
+                8 => m.maintain(v).map(|_| ("OMaint".to_string(), None)),
                 _ => m.clear().map(|_| ("OUnit".to_string(), None)),
             }
         });
@@ -452,6 +463,10 @@ fn history(cx: &mut Ctx, family: &str, variant: u64, aux: u64, ops: &[(u64, u64,
             Err(p) => { failure = Some(format!("op {} {:?} panicked: {}", i, (c, k, v), p)); break; }
             Ok(None) => { /* operation not offered by this type: skipped on both sides */
                 obs.push("OUnit".into()); offered.push(false); continue; }
+            Ok(Some((term, _))) if term == "OMaint" => {
+                // housekeeping has no counterpart in the models: left out of the model comparison (like an operation the type
+                // does not offer), and the layout observables of such a history are not compared
+                maintained = true; obs.push("OUnit".into()); offered.push(false); continue; }
             Ok(Some((term, complaint))) => {
                 let empty_answer = matches!(term.as_str(), "ORes None" | "OBool false" | "OLen 0" | "OIter []" | "OUnit");
                 if !empty_answer { stub_like = false; }
@@ -481,7 +496,7 @@ fn history(cx: &mut Ctx, family: &str, variant: u64, aux: u64, ops: &[(u64, u64,
             // layout observables (slot/entry order, capacity, deleted count) are compared in the thorough tier only:
             // a property-preserving change of growth policy or slot order is then reported as model drift
             // (no-failing-input-found) there, and not at all in the quick tier
-            let fin = if failure.is_none() && cx.strict { guarded(|| cell.map.raw()).ok().flatten() } else { None };
+            let fin = if failure.is_none() && cx.strict && !maintained { guarded(|| cell.map.raw()).ok().flatten() } else { None };
             let kvs = |v: &[(u64, u64)]| format!("[{}]", v.iter().map(|(a, b)| format!("({}, {})", a, b)).collect::<Vec<_>>().join("; "));
             let (kind, params, tables): (u64, Vec<u64>, Vec<String>) = match desc {
                 ModelDesc::Std { mode, cap } => match &fin {
@@ -534,7 +549,7 @@ fn gen_history(r: &mut Rng, max_len: u64) -> Vec<(u64, u64, u64)> {
     for _ in 0..n {
         let k = *r.pick(&universe);
         next_val += 1;
-        let c = match r.below(100) { 0..=34 => 0, 35..=59 => 1, 60..=72 => 2, 73..=79 => 3, 80..=84 => 4, 85..=89 => 5, 90..=96 => 6, _ => 7 };
+        let c = match r.below(100) { 0..=34 => 0, 35..=59 => 1, 60..=72 => 2, 73..=79 => 3, 80..=84 => 4, 85..=89 => 5, 90..=94 => 6, 95..=96 => 7, _ => 8 };
         ops.push((c, k, next_val));
     }
     ops.push((5, 0, 0));
